@@ -53,7 +53,7 @@ def _settings(rng):
     if rng.random() < 0.3:
         s["premium"] = True
     if rng.random() < 0.35:
-        s["default_bg"] = rng.choice(("black", "#222", "rgb(250, 250, 240)", "#FFFFFF", "navy"))
+        s["default_bg"] = rng.choice(("black", "#222", "rgb(250, 250, 240)", "#FFFFFF", "navy", "var(--page-bg)", "var(--page-bg, #fafafa)"))
     return s
 
 
